@@ -52,7 +52,8 @@ func c10ReachingDefs(f *core.FuncInfo, v *types.Var, at core.Point) (defs []assi
 
 func c10Frame(c *core.Ctx) {
 	c.Clause("C10.frame", func() {
-		f := c.Fn(c10Calc)
+		// calcFrameIdx as one body (helpers it calls are seen through; the quorum test stays a call)
+		f := c10Inlined(c.Fn(c10Calc), c10FCQ)
 		ev := f.Param(0)
 		c.Need(ev != nil, "calcFrameIdx names its event parameter")
 		// the self-parent's frame: the variable that receives <…SelfParent()…>.Frame(); its other values are 0
